@@ -5,6 +5,8 @@ R2.2 clocks carried by the library's own events are emitted in sampling order
 R2.3 OF[ is always immediately followed by OF]
 R2.4 metadata completeness = writer/reader key agreement
 R2.5 the emulator walks streams with the writer's own size function
+R2.6 the reader does not refuse what the writer legitimately produces: an event whose clock equals or exceeds
+     the previous one of its stream (and of the previous stream) is accepted
 """
 from ovsa import absint, effects
 from ovsa.absint import INT, NULL, PTR, TOP
@@ -39,6 +41,11 @@ def run(ctx):
     ctx.rule("R2.5", "for every event stream_step accepts, the distance it advances equals the size the "
              "runtime's ovni_ev_size (single definition) gives for the same bytes, so reader and writer tile the "
              "stream identically")
+
+    ctx.rule("R2.6", "stream_step refuses a complete event on clock grounds only when its corrected clock is "
+             "strictly lower than the previous one of the stream (equal clocks, which a coarse clock or one sample "
+             "stamped on two events produce, are accepted); update_clocks accepts equal and increasing clocks "
+             "across streams")
 
     rt = RtExplorer(ctx, cap)
     ex = rt.ex
@@ -91,6 +98,15 @@ def run(ctx):
                 if c1 is None or c2 is None or rt.le(d2["cons"], c1, c2) is not True:
                     bad_clock.append("%s(clock %s) is followed by %s(clock %s)" %
                                      (m1, _s(c1) if c1 else c1, m2, _s(c2) if c2 else c2))
+            # the user's event carries a clock sampled before the call, the markers clocks sampled inside it:
+            # in the buffer the user's event must precede the markers of the flush it triggered
+            seen_marker = None
+            for nm in names:
+                if nm in ("OF[", "OF]"):
+                    seen_marker = nm
+                elif nm == "user-event" and seen_marker:
+                    bad_clock.append("the user's event (clock sampled by the caller before the call) is stored after "
+                                     "%s (clock sampled during the call)" % seen_marker)
         if outs:
             what = ""
             if reentrant:
@@ -211,6 +227,49 @@ def run(ctx):
                     bad.append("stream_step advances by a different amount than ovni_ev_size gives for the same bytes")
     ctx.check(npairs > 0 and not bad, "R2.5", "stream_step:step-equals-writer-size", ss.loc(),
               "; ".join(sorted(set(bad))) or "nothing explored")
+    # ---- R2.6 -------------------------------------------------------------------------------
+    ex6 = absint.Explorer(prog, effects=eff, inline=lambda n, d: n in inl and d.name != "stream_step",
+                          loop_bound=2, max_depth=5, symbolic_roots=("BUF",),
+                          symbolic_ranges={"unsigned long": (0, 2 ** 61)})
+    S6 = ex6.sym("size", 8, 2 ** 31 - 1)
+    off6 = ex6.sym("off", 8, 2 ** 31 - 1)
+    L6 = ex6.sym("lastclock", -2 ** 61, 2 ** 61)
+    K6 = ex6.sym("clkoff", -2 ** 60, 2 ** 60)
+    store6 = {("ST", F("stream", "active")): INT(1), ("ST", F("stream", "size")): S6,
+              ("ST", F("stream", "offset")): off6, ("ST", F("stream", "buf")): PTR("BUF", (0,)),
+              ("ST", F("stream", "cur_ev")): NULL, ("ST", F("stream", "unsorted")): INT(0),
+              ("ST", F("stream", "lastclock")): L6, ("ST", F("stream", "clock_offset")): K6}
+    outs6 = ex6.run(ss, [PTR("ST")], store6, cons=(((("off", 1), ("size", -1)), -1),))
+    rej = [o for o in outs6 if o.kind == "ret" and o.ret is not None and o.ret[0] == "int" and o.ret[1] < 0]
+    ctx.need(rej, "stream_step: no rejecting path explored")
+    nclock, unjust = 0, []
+    for o in rej:
+        for (key, c) in o.cons:
+            t = dict(key)
+            if "lastclock" not in t or abs(t["lastclock"]) != 1:
+                continue
+            # orient the form as (corrected clock - lastclock)
+            if t["lastclock"] == 1:
+                t = {k: -v for k, v in t.items()}
+            nclock += 1
+            # the rejection is justified only if clock - lastclock < 0 on this path
+            if ex6.decide_cmp(o.cons, ">=", 0, t) is not False:
+                unjust.append("an event whose corrected clock is not lower than the previous one of its stream "
+                              "(for instance equal to it) is refused")
+    ctx.check(nclock >= 1 and not unjust, "R2.6", "stream_step:equal-clock-accepted", ss.loc(),
+              "; ".join(sorted(set(unjust))) or "no clock-based rejection found")
+    uc = prog.fn("update_clocks", "src/emu/player.c")
+    for (last, sclock) in ((10, 10), (10, 11)):
+        exu = absint.Explorer(prog, effects=eff, summaries={
+            "stream_lastclock": lambda ex_, st, args, f, e, s_=sclock: [(INT(s_), {})]})
+        outsu = exu.run(uc, [PTR("PL"), PTR("S1")], {("PL", F("player", "first_event")): INT(0),
+                                                     ("PL", F("player", "lastclock")): INT(last),
+                                                     ("PL", F("player", "unsorted")): INT(0),
+                                                     ("PL", F("player", "firstclock")): INT(0)})
+        acc = [o for o in outsu if o.kind == "ret" and o.ret == INT(0)]
+        ctx.check(bool(acc), "R2.6", "update_clocks:last=%d:next=%d" % (last, sclock), uc.loc(),
+                  "a legal step between streams (clock %d after %d) is refused" % (sclock, last))
+
     # nobody in the emulator decodes the size nibble on its own
     own = []
     for f in prog.functions.values():
